@@ -248,7 +248,10 @@ def pyIndex (T : Nat) (t : Int) : Option Nat :=
 def sliceIdx (kind : Kind) (periodic : Bool) (T : Nat) (t : Int) : Option Nat :=
   match kind with
   | .ltv => if periodic then (if T = 0 then none else some (t % (T : Int)).toNat) else pyIndex T t
-  | _ => some 0
+  | _ =>
+    -- an `LTI` object reads slice 0 — unless a user subclass of `LTI` overrides its properties with values computed from
+    -- `_t % T` (`periodic = true`; with `T = 1` this is slice 0 again)
+    if periodic then (if T = 0 then none else some (t % (T : Int)).toNat) else some 0
 
 def optAdd (z : DVec α) : Option (DVec α) → DVec α
   | none => z
@@ -272,6 +275,40 @@ def linForward (S : LinSys α) (t : Int) (x u : DVec α) : Option (DVec α × DV
         some (affine A B c1 x u, affine C D c2 x u)
       else none
     | _, _, _, _ => none
+
+/-- **An LTI / LTV object as the user built it**: what the constructor stored in the private buffers `_A … _c2`, and what a
+user subclass *overrides*: the public properties `A, B, C, D, c1, c2` (values per time slice — e.g. computed from the
+clock while the constructor received `None` or a dummy). `state_transition` / `observation` read the **properties**, for
+the `is None` test of the constant term as well as for its value. -/
+structure LinObj (α : Type) where
+  kind : Kind
+  periodic : Bool
+  bufA : List (DMat α)
+  bufB : List (DMat α)
+  bufC : List (DMat α)
+  bufD : List (DMat α)
+  bufc1 : Option (List (DVec α))
+  bufc2 : Option (List (DVec α))
+  ovA : Option (List (DMat α)) := none
+  ovB : Option (List (DMat α)) := none
+  ovC : Option (List (DMat α)) := none
+  ovD : Option (List (DMat α)) := none
+  ovc1 : Option (Option (List (DVec α))) := none       -- an overridden property may itself return `None`
+  ovc2 : Option (Option (List (DVec α))) := none
+
+/-- the public properties: the override where there is one, else the buffer -/
+def LinObj.props (o : LinObj α) : LinSys α :=
+  { kind := o.kind, periodic := o.periodic
+    A := o.ovA.getD o.bufA, B := o.ovB.getD o.bufB, C := o.ovC.getD o.bufC, D := o.ovD.getD o.bufD
+    c1 := o.ovc1.getD o.bufc1, c2 := o.ovc2.getD o.bufc2 }
+
+/-- one forward of the object: the LTI equations on its **properties** -/
+def objForward (o : LinObj α) (t : Int) (x u : DVec α) : Option (DVec α × DVec α) := linForward o.props t x u
+
+/-- the variant of the seeded change C15-5 (NOT the code): the `is None` test looks at the private buffer, the value at the
+property — an overridden `c1` / `c2` is dropped when the constructor received `None` -/
+def objForwardPrivateTest (o : LinObj α) (t : Int) (x u : DVec α) : Option (DVec α × DVec α) :=
+  linForward { o.props with c1 := o.bufc1.bind (fun _ => o.props.c1), c2 := o.bufc2.bind (fun _ => o.props.c2) } t x u
 
 inductive LEv (α : Type)
   | call (x u : DVec α)
